@@ -215,10 +215,16 @@ def leg_r_rpc(wd, tier, binary, verdict, mutate=None):
     npaths = nsteps = 0
     total_paths = 0
     per_group = 10 if tier == "quick" else None
-    for lim, es, paths in cover_by_config(macro, rng, 40):
+    # the other peer -> subnet map (nobody shares a subnet): same machinery, its own small graph
+    r2 = vlib.run_tlc(wd, "MCLimits", "Limits_rpc_edges_split.cfg", workers=1, timeout=900, env=HEAP_SMALL)
+    vlib.tlc_must_pass(r2, "Limits RPC edge export (split subnets)")
+    states2, _, macro2 = macro_graph(r2.edges)
+    covers = [(x, True) for x in cover_by_config(macro, rng, 40)] + [(x, False) for x in cover_by_config(macro2, rng, 40)]
+    states = dict(states); states.update(states2); macro = macro + macro2
+    for (lim, es, paths), shared in covers:
         total_paths += len(paths)
         overlap = [p for p in paths if any(e["act"]["op"] == "Stop2Begin" and rpc_obs(e["to"])["inside"] for e in p)]
-        if not overlap:
+        if shared and not overlap:
             raise vlib.Infra("no cover path calls Close a second time while a handler is inside")
         picked = sample_paths(paths, per_group, rng)
         if per_group is not None:
@@ -236,9 +242,15 @@ def leg_r_rpc(wd, tier, binary, verdict, mutate=None):
     if res["counts"].get("infra"):
         raise vlib.Infra("rpc replay could not set up %d paths: %s" % (res["counts"]["infra"], res.get("notes")))
     verdict.add_all(res["mismatches"])
-    log("  R/rpc: %d steps on real syncers, %d mismatches, %.1fs" % (res["evaluations"], len(res["mismatches"]), res["wall"]))
-    return dict(states=len(states), edges=len(r.edges), macro=len(macro), paths=npaths, cover_paths=total_paths, steps=res["evaluations"],
-                distinct=res["distinct"], samples=res["samples"], tlc=r)
+    plans = {k[5:]: v for k, v in res["counts"].items() if k.startswith("plan_")}
+    if res["counts"].get("alias_unavailable"):
+        log("  R/rpc: loopback aliases cannot be bound on this machine: one address per subnet only")
+    elif tier == "quick" and not (plans.get("net24") and plans.get("net16")):
+        raise vlib.Infra("the replay never put distinct addresses into one configured subnet: %s" % plans)
+    log("  R/rpc: %d steps on real syncers (peer->subnet map realised as %s), %d mismatches, %.1fs"
+        % (res["evaluations"], ", ".join("%s x%d" % kv for kv in sorted(plans.items())), len(res["mismatches"]), res["wall"]))
+    return dict(states=len(states), edges=len(r.edges) + len(r2.edges), macro=len(macro), paths=npaths, cover_paths=total_paths, steps=res["evaluations"],
+                distinct=res["distinct"], samples=res["samples"], tlc=r, address_plans=plans)
 
 
 def conn_obs(s):
@@ -529,7 +541,7 @@ def run(tier):
                   "constants": "RPC family: 2 peers sharing a subnet x 2 RPCs, caps maxInflight x maxSubnet as listed per cfg (thorough adds 3x2, 2x3, hang-ups); "
                                "CONN family: 3 inbound + 1-2 outbound attempts, caps {0,1,2}; TG family: 4 threads; Close/Stop at every moment; complete reachable state spaces",
                   "deviations_shown_to_fail": ["DevCapCheckThenAct -> PeerCaps", "DevSweepOnce -> StopReturns (selftest/thorough)"]},
-        "replay": {"rpc": {k: rr[k] for k in ("states", "edges", "macro", "paths", "cover_paths", "steps")},
+        "replay": {"rpc": {k: rr[k] for k in ("states", "edges", "macro", "paths", "cover_paths", "steps", "address_plans")},
                    "conn": {k: rc_[k] for k in ("states", "edges", "macro", "paths", "cover_paths", "steps", "cap_exceeded", "close_blocked")},
                    "tg": {k: rt[k] for k in ("states", "edges", "macro", "paths", "cover_paths", "steps")}},
         "trace_validation": {k: tt[k] for k in ("traces", "skipped_expensive", "events", "rejected", "trace_states", "rpcs", "handlers", "storm", "outbound_rounds", "close_stuck_runs")},
@@ -542,7 +554,8 @@ def run(tier):
     }
     vlib.write_evidence(PROP, tier, "model_checking", cov,
                         ["handlers are gated inside ChainManager.BlocksForHistory (RPC SendV2Blocks); other RPC types share the same runPeer path and are not driven",
-                         "peers are raw gateway clients on loopback 127.0.x.y; subnets are /32 loopback addresses",
+                         "peers are raw gateway clients on loopback 127.x.y.z; the peer->subnet map is realised with IPv4 prefix lengths 32, 24 and 16 "
+                         "(one shared address, distinct addresses in one /24 or /16, neighbouring addresses split by /32); IPv6 prefixes are not exercised (only ::1 is local)",
                          "settled-state replay: after each environment step the real system is given up to 10 s to reach the specification's settled state and must stay there for 12 ms",
                          "Syncer.Close is replayed as its two statements (listener close, ThreadGroup.Stop) so that schedules between them can be staged",
                          "explicit Syncer.Connect is not subject to the outbound cap (only peerLoop is); outbound cap checked by sampling, not stepped",
